@@ -139,7 +139,7 @@ mod v_neighbor_cache {
     }
 
     // ------------------------------------------------------------------ lookup is exactly the model
-    // @harness props=C16 cfg=KI4,KI6 tier=q to=600 mem=6 unwind=KI4:8,KI6:18 opts=nomem covers=4 funcs=neighbor::Cache::lookup;neighbor::Cache::fill;neighbor::Cache::fill_with_expiration;neighbor::Cache::limit_rate bounds=cache_of_3_slots_holding_0..=3_entries;_any_unicast_keys_(all_address_bits_symbolic),_any_unicast_Ethernet_addresses,_any_expiries_and_silent_until_(microsecond_resolution);_one_fill_at_any_time_then_one_lookup_of_any_address_at_any_time
+    // @harness props=C16 cfg=KI4,KI6 tier=q to=600 mem=4 unwind=KI4:8,KI6:18 opts=nomem covers=4 funcs=neighbor::Cache::lookup;neighbor::Cache::fill;neighbor::Cache::fill_with_expiration;neighbor::Cache::limit_rate bounds=cache_of_3_slots_holding_0..=3_entries;_any_unicast_keys_(all_address_bits_symbolic),_any_unicast_Ethernet_addresses,_any_expiries_and_silent_until_(microsecond_resolution);_one_fill_at_any_time_then_one_lookup_of_any_address_at_any_time
     #[kani::proof]
     pub(crate) fn nc_fill_lookup() {
         let now = any_now();
@@ -181,7 +181,7 @@ mod v_neighbor_cache {
     }
 
     // ------------------------------------------------------------------ 60 s lifetime, exact boundary
-    // @harness props=C16 cfg=KI4,KI6 tier=q to=600 mem=6 unwind=KI4:8,KI6:18 opts=nomem covers=3 funcs=neighbor::Cache::fill;neighbor::Cache::lookup bounds=cache_of_3_slots_in_any_state;_fill_at_any_instant_t;_probes_at_t+60s-1us,_t+60s_and_any_later_instant
+    // @harness props=C16 cfg=KI4,KI6 tier=q to=600 mem=4 unwind=KI4:8,KI6:18 opts=nomem covers=3 funcs=neighbor::Cache::fill;neighbor::Cache::lookup bounds=cache_of_3_slots_in_any_state;_fill_at_any_instant_t;_probes_at_t+60s-1us,_t+60s_and_any_later_instant
     #[kani::proof]
     pub(crate) fn nc_expiry_60s() {
         let now = any_now();
@@ -211,7 +211,7 @@ mod v_neighbor_cache {
     }
 
     // ------------------------------------------------------------------ eviction: the oldest expiry, never another
-    // @harness props=C16 cfg=KI4,KI6 tier=q to=600 mem=6 unwind=KI4:8,KI6:18 opts=nomem covers=3 funcs=neighbor::Cache::fill;neighbor::Cache::fill_with_expiration;neighbor::Cache::lookup bounds=cache_of_3_slots_holding_0..=3_entries_with_any_expiries_(ties_included);_one_fill_of_any_unicast_key_(new_or_known)
+    // @harness props=C16 cfg=KI4,KI6 tier=q to=600 mem=4 unwind=KI4:8,KI6:18 opts=nomem covers=3 funcs=neighbor::Cache::fill;neighbor::Cache::fill_with_expiration;neighbor::Cache::lookup bounds=cache_of_3_slots_holding_0..=3_entries_with_any_expiries_(ties_included);_one_fill_of_any_unicast_key_(new_or_known)
     #[kani::proof]
     pub(crate) fn nc_evicts_oldest() {
         let now = any_now();
@@ -252,7 +252,7 @@ mod v_neighbor_cache {
     }
 
     // ------------------------------------------------------------------ discovery rate limit
-    // @harness props=C16 cfg=KI4,KI6 tier=q to=600 mem=6 unwind=KI4:8,KI6:18 opts=nomem covers=3 funcs=neighbor::Cache::limit_rate;neighbor::Cache::lookup;neighbor::Cache::flush bounds=cache_of_3_slots_in_any_state;_limit_rate_at_any_instant;_lookup_of_any_address_at_any_instant;_flush
+    // @harness props=C16 cfg=KI4,KI6 tier=q to=600 mem=4 unwind=KI4:8,KI6:18 opts=nomem covers=3 funcs=neighbor::Cache::limit_rate;neighbor::Cache::lookup;neighbor::Cache::flush bounds=cache_of_3_slots_in_any_state;_limit_rate_at_any_instant;_lookup_of_any_address_at_any_instant;_flush
     #[kani::proof]
     pub(crate) fn nc_rate_limit() {
         let now = any_now();
@@ -285,7 +285,7 @@ mod v_neighbor_cache {
     }
 
     // ------------------------------------------------------------------ refresh needs key AND hardware address
-    // @harness props=C16 cfg=KI4,KI6 tier=q to=600 mem=6 unwind=KI4:8,KI6:18 opts=nomem covers=3 funcs=neighbor::Cache::reset_expiry_if_existing;neighbor::Cache::lookup bounds=cache_of_3_slots_in_any_state;_refresh_with_any_(address,_hardware_address)_at_any_instant
+    // @harness props=C16 cfg=KI4,KI6 tier=q to=600 mem=4 unwind=KI4:8,KI6:18 opts=nomem covers=3 funcs=neighbor::Cache::reset_expiry_if_existing;neighbor::Cache::lookup bounds=cache_of_3_slots_in_any_state;_refresh_with_any_(address,_hardware_address)_at_any_instant
     #[kani::proof]
     pub(crate) fn nc_reset_expiry() {
         let now = any_now();
@@ -316,7 +316,7 @@ mod v_neighbor_cache {
         kani::cover!(!m_has_key(&m, &p) && m.n == 3, "unknown sender, full cache");
     }
 
-    // @harness props=C16 kind=mustfail cfg=KI4 tier=q to=600 mem=6 unwind=8 opts=nomem
+    // @harness props=C16 kind=mustfail cfg=KI4 tier=q to=600 mem=4 unwind=8 opts=nomem
     #[kani::proof]
     pub(crate) fn nc_must_fail() {
         let now = any_now();
